@@ -66,6 +66,8 @@ def rule_delegate(ctx):
     ctx.ob("DELEGATE", "no derived (field-wise) Serialize/Deserialize on GenericPurl, PurlParts or Qualifiers", not derived, detail=str([im["path"] for im in derived]))
 
 
+THOROUGH_FS = []
+
 RULES = [("DELEGATE", rule_delegate, 7)]
 
 MANIFEST = {
